@@ -26,3 +26,10 @@ package common
 // inspects the first character of the field name (unicode tables): trusted, pure
 //@ func IsFieldExported
 //@   trusted
+
+// CloneBytes: a fresh slice with the same bytes (the copy shares no storage with the argument).
+//@ func CloneBytes
+//@   requires len(bytes) <= 0x1000000000
+//@   modifies alloc, memall(uint8)
+//@   ensures len(result) == len(bytes) && fresh(result) && result.off == 0
+//@   ensures forall i int :: 0 <= i && i < len(bytes) ==> result[i] == old(bytes[i])
